@@ -11,8 +11,8 @@ ENGINES = {
     'strings':  dict(quick_n=3000, thorough_n=40000, search_n=40000),
     'csv':      dict(quick_n=3000, thorough_n=60000, search_n=20000),
     'ryu':      dict(quick_n=3400, thorough_n=40000, search_n=40000),
-    'sql':      dict(quick_n=800,  thorough_n=8000,  search_n=8000),
-    'iofault':  dict(quick_n=4000, thorough_n=40000, search_n=40000),
+    'sql':      dict(quick_n=800,  thorough_n=20000, search_n=8000),
+    'iofault':  dict(quick_n=40,   thorough_n=400,   search_n=400),
     'share':    dict(quick_n=400,  thorough_n=5000,  search_n=5000),
     'conc':     dict(quick_n=300,  thorough_n=3000,  search_n=3000, race=True),
 }
